@@ -167,12 +167,24 @@ def combos(pydrex):
             (P.olivine, Fb.olivine_D), (P.olivine, Fb.olivine_E), (P.enstatite, Fb.enstatite_AB)]
 
 
+def exponents(rng):
+    """(stress exponent p, deformation exponent n) in their documented ranges [1, 2] x [2, 5]: mostly continuous,
+    otherwise end points, whole numbers (odd and even) and the one point where the two coincide (p = n = 2)."""
+    r = rng.random()
+    if r < 0.7:
+        return float(rng.uniform(1, 2)), float(rng.uniform(2, 5))
+    if r < 0.78:
+        return 2.0, 2.0
+    return float(rng.choice([1.0, 1.5, 2.0])), float(rng.choice([2.0, 3.0, 3.5, 4.0, 5.0]))
+
+
 def drex_params(rng, hostile=True):
     """Physical parameter set as a plain dict of floats (descriptor friendly)."""
+    pe, ne = exponents(rng)
     p = {
-        # documented ranges, with their end points and whole numbers drawn explicitly
-        "stress_exponent": float(rng.uniform(1, 2)) if rng.random() < 0.8 else float(rng.choice([1.0, 1.5, 2.0])),
-        "deformation_exponent": float(rng.uniform(2, 5)) if rng.random() < 0.8 else float(rng.choice([2.0, 3.0, 3.5, 4.0, 5.0])),
+        # documented ranges, with their end points, whole numbers and the coincidence p = n drawn explicitly
+        "stress_exponent": pe,
+        "deformation_exponent": ne,
         "nucleation_efficiency": float(rng.choice([0.0, 5.0, 50.0]) if rng.random() < 0.5 else rng.uniform(0, 10)),
         "gbm_mobility": float(rng.choice([0.0, 10.0, 125.0, 200.0]) if rng.random() < 0.6 else rng.uniform(0, 200)),
         "gbs_threshold": float(rng.choice([0.0, 0.3, 0.9]) if rng.random() < 0.6 else rng.uniform(0, 0.9)),
